@@ -220,7 +220,11 @@ class Evaluator:
         return ("boolop", type(e.op).__name__, vals)
 
     def ev_UnaryOp(self, e):
-        return ("unop", type(e.op).__name__, self.ev(e.operand))
+        v = self.ev(e.operand)
+        if isinstance(e.op, ast.USub) and v[0] == "const" and isinstance(
+                v[1], (int, float)) and not isinstance(v[1], bool):
+            return ("const", -v[1])
+        return ("unop", type(e.op).__name__, v)
 
     def ev_BinOp(self, e):
         return ("binop", type(e.op).__name__, self.ev(e.left), self.ev(e.right))
@@ -231,10 +235,13 @@ class Evaluator:
         return ("compare", tuple(type(o).__name__ for o in e.ops), left, rights)
 
     def ev_JoinedStr(self, e):
+        parts = []
         for v in e.values:
             if isinstance(v, ast.FormattedValue):
-                self.ev(v.value)
-        return ("other", "fstring")
+                parts.append(self.ev(v.value))
+            elif isinstance(v, ast.Constant):
+                parts.append(("const", v.value))
+        return ("fstring", tuple(parts))
 
     def ev_NamedExpr(self, e):
         v = self.ev(e.value)
@@ -359,6 +366,11 @@ class Evaluator:
                     args = args + (("star", sv),)
         kwargs = tuple((k.arg, self.ev(k.value)) for k in e.keywords)
         loops = tuple(self.loops)
+
+        # "...".format(...) / ", ".join(...)
+        if isinstance(f, ast.Attribute) and isinstance(f.value, ast.Constant) \
+                and isinstance(f.value.value, str) and f.attr in ("format", "join"):
+            return ("str" + f.attr, f.value.value, args, kwargs)
 
         # x.__class__(...)
         if isinstance(f, ast.Attribute) and f.attr == "__class__":
